@@ -1,0 +1,48 @@
+//go:build verif
+
+// Contracts for deductive verification (comment-only; read by /verif/govc, never compiled into the product).
+
+package constraint
+
+// ---------------------------------------------------------------------------------------------------------
+// C05: a task is launched only on an agent whose attributes satisfy every constraint that applies to it
+
+// text value of an attribute ("" when it has none)
+//@ ghost pure func textOf(a mesos.Attribute) string = if a.Text == nil then "" else a.Text.Value
+
+// i is the first attribute named name
+//@ ghost pure func firstNamed(attrs Attributes, name string, i int) bool =
+//@     0 <= i && i < len(attrs) && attrs[i].Name == name && (forall k int :: 0 <= k && k < i ==> attrs[k].Name != name)
+
+// one attribute value satisfies one wanted value: equal, or a comma-separated list containing it
+//@ ghost pure func inList(v string, want string) bool =
+//@     exists k int :: 0 <= k && k < strings.splitLen(v, ",") && strings.splitElem(v, ",", k) == want
+//@ ghost pure func valueOk(v string, want string) bool = v == want || (strings.has(v, ",") && inList(v, want))
+
+// the attribute list satisfies one constraint
+//@ ghost pure func satC(attrs Attributes, c Constraint) bool =
+//@     exists i int :: firstNamed(attrs, c.Attribute, i) && valueOk(textOf(attrs[i]), c.Value)
+
+//@ func (attrs Attributes) Get(attributeName string) (value string, ok bool)
+//@   property C05
+//@   opt strings=uf
+//@   modifies nothing
+//@   ensures ok <==> exists i int :: 0 <= i && i < len(attrs) && attrs[i].Name == attributeName
+//@   ensures ok ==> exists i int :: firstNamed(attrs, attributeName, i) && value == textOf(attrs[i])
+//@   ensures !ok ==> value == ""
+//@   loop 1 invariant #i >= -1 && #i < len(attrs)
+//@   loop 1 invariant forall k int :: 0 <= k && k <= #i ==> attrs[k].Name != attributeName
+
+// Satisfy: true iff EVERY constraint is satisfied (from the property statement), not just the last one examined.
+//@ func (attrs Attributes) Satisfy(cts Constraints) (ok bool)
+//@   property C05
+//@   opt strings=uf
+//@   modifies nothing
+//@   requires forall j int :: 0 <= j && j < len(cts) ==> cts[j].Operator == Equals
+//@   ensures len(cts) == 0 ==> ok
+//@   ensures len(cts) > 0 && attrs == nil ==> !ok
+//@   ensures len(cts) > 0 && attrs != nil && ok ==> forall j int :: 0 <= j && j < len(cts) ==> satC(attrs, cts[j])
+//@   ensures len(cts) > 0 && attrs != nil && !ok ==> exists j int :: 0 <= j && j < len(cts) && !satC(attrs, cts[j])
+//@   loop 1 invariant #i >= -1 && #i < len(cts)
+//@   loop 1 invariant forall j int :: 0 <= j && j <= #i ==> satC(attrs, cts[j])
+//@   loop 1 invariant #i >= 0 ==> ok
